@@ -45,6 +45,9 @@ Definition triple := (subject * str * robject)%type.
 
 Definition XSD_STRING : str := Eval vm_compute in s2l "http://www.w3.org/2001/XMLSchema#string".
 Definition RDF_NS : str := Eval vm_compute in s2l "http://www.w3.org/1999/02/22-rdf-syntax-ns#".
+(* quick-xml's NsReader refuses to bind a named prefix to one of the two reserved namespaces *)
+Definition XMLNS_NS : str := Eval vm_compute in s2l "http://www.w3.org/2000/xmlns/".
+Definition XML_NS : str := Eval vm_compute in s2l "http://www.w3.org/XML/1998/namespace".
 
 Definition subject_eqb (a b : subject) : bool :=
   match a, b with
@@ -515,26 +518,34 @@ Definition X_DESC_END : str := Eval vm_compute in s2l "</rdf:Description>".
 Definition X_RDF_END : str := Eval vm_compute in s2l "</rdf:RDF>".
 Definition X_DESC : str := Eval vm_compute in s2l "<rdf:Description".
 Definition X_PROP : str := Eval vm_compute in s2l "prop:".
-Definition xattr (k : string) (v : str) : str := 32 :: s2l k ++ 61 :: 34 :: xml_escape v ++ [34].
+(* attribute openers, each  space name = dquote *)
+Definition A_XMLNS : str := Eval vm_compute in s2l " xmlns=""".
+Definition A_XMLNS_PROP : str := Eval vm_compute in s2l " xmlns:prop=""".
+Definition A_ABOUT : str := Eval vm_compute in s2l " rdf:about=""".
+Definition A_NODEID : str := Eval vm_compute in s2l " rdf:nodeID=""".
+Definition A_RES : str := Eval vm_compute in s2l " rdf:resource=""".
+Definition A_LANG : str := Eval vm_compute in s2l " xml:lang=""".
+Definition A_DT : str := Eval vm_compute in s2l " rdf:datatype=""".
+Definition xattr (k : str) (v : str) : str := k ++ xml_escape v ++ [34].
 
 Definition xml_prop (p : str) (o : object) : str :=
   let (ns, loc) := split_iri p in
   let qn := match loc with [] => X_PROP | _ => loc end in
-  let xmlns := match loc with [] => xattr "xmlns:prop" ns | _ => xattr "xmlns" ns end in
+  let xmlns := match loc with [] => xattr A_XMLNS_PROP ns | _ => xattr A_XMLNS ns end in
   let '(oattr, content) :=
     match o with
-    | OIri i => (xattr "rdf:resource" i, None)
-    | OBlank b => (xattr "rdf:nodeID" b, None)
+    | OIri i => (xattr A_RES i, None)
+    | OBlank b => (xattr A_NODEID b, None)
     | OLit (LSimple v) => ([], Some v)
-    | OLit (LLang v l) => (xattr "xml:lang" l, Some v)
-    | OLit (LTyped v dt) => (xattr "rdf:datatype" dt, Some v)
+    | OLit (LLang v l) => (xattr A_LANG l, Some v)
+    | OLit (LTyped v dt) => (xattr A_DT dt, Some v)
     end in
   match content with
   | Some v => 60 :: qn ++ xmlns ++ oattr ++ 62 :: xml_escape v ++ 60 :: 47 :: qn ++ [62]
   | None => 60 :: qn ++ xmlns ++ oattr ++ [47; 62]
   end.
 Definition xml_desc_open (s : subject) : str :=
-  X_DESC ++ (match s with SIri i => xattr "rdf:about" i | SBlank b => xattr "rdf:nodeID" b end) ++ [62].
+  X_DESC ++ (match s with SIri i => xattr A_ABOUT i | SBlank b => xattr A_NODEID b end) ++ [62].
 Fixpoint enc_xml_from (cur : option subject) (ts : list rio_triple) : str :=
   match ts with
   | [] => (match cur with Some _ => X_DESC_END | None => [] end) ++ X_RDF_END
@@ -572,8 +583,208 @@ Definition known_xml_nodeid (t : triple) : bool :=
 Definition known_xml_ws (t : triple) : bool :=
   let '(_, _, o) := t in match o with ROLit l => ws_only (lit_value l) | _ => false end.
 Definition known_xml_reserved (t : triple) : bool := let '(_, p, _) := t in reserved_pred p.
+(* a predicate that is exactly the xmlns namespace IRI: no local name, so the formatter
+   declares xmlns:prop with it, which quick-xml refuses *)
+Definition known_xml_nsbind (t : triple) : bool :=
+  let '(_, p, _) := t in str_eqb p XMLNS_NS.
 Definition known_xml (t : triple) : bool :=
-  known_xml_nodeid t || known_xml_ws t || known_xml_reserved t.
+  known_xml_nodeid t || known_xml_ws t || known_xml_reserved t || known_xml_nsbind t.
+
+
+(* --- decoding: what rio_xml's RdfXmlParser (plus the adapter) reads on that text --- *)
+(* attribute value up to the closing dquote, unescaped *)
+Definition read_attr (s : str) : option (str * str) :=
+  let (raw, r) := span (fun c => negb (c =? 34)) s in
+  match r with
+  | 34 :: r' => match xml_unescape raw with Some v => Some (v, r') | None => None end
+  | _ => None
+  end.
+(* element text up to the next tag; parse_text_event ignores a text node made only of blanks *)
+Definition read_text (s : str) : option (str * str) :=
+  let (raw, r) := span (fun c => negb (c =? 60)) s in
+  match xml_unescape raw with
+  | Some v => Some (match raw with
+                    | [] => v
+                    | _ => if forallb is_ws raw then [] else v
+                    end, r)
+  | None => None
+  end.
+(* ">" text "</qn>" *)
+Definition xml_body (qn : str) (s : str) : option (str * str) :=
+  match s with
+  | 62 :: r =>
+      match read_text r with
+      | Some (v, r') =>
+          match strip (60 :: 47 :: qn ++ [62]) r' with Some r'' => Some (v, r'') | None => None end
+      | None => None
+      end
+  | _ => None
+  end.
+Definition X_EMPTY_END : str := [47; 62].            (* "/>" *)
+(* after the namespace declaration of a property element *)
+Definition dec_xml_object (qn : str) (s : str) : option (object * str) :=
+  match strip A_RES s with
+  | Some r =>
+      match read_attr r with
+      | Some (i, r') =>
+          match strip X_EMPTY_END r' with
+          | Some r'' => if iri_ok i then Some (OIri i, r'') else None
+          | None => None
+          end
+      | None => None
+      end
+  | None =>
+  match strip A_NODEID s with
+  | Some r =>
+      match read_attr r with
+      | Some (b, r') =>
+          match strip X_EMPTY_END r' with
+          | Some r'' => if ncname b then Some (OBlank b, r'') else None
+          | None => None
+          end
+      | None => None
+      end
+  | None =>
+  match strip A_LANG s with
+  | Some r =>
+      match read_attr r with
+      | Some (l, r') =>
+          match xml_body qn r' with
+          | Some (v, r'') => if lang_shape l then Some (OLit (LLang v (map lower l)), r'') else None
+          | None => None
+          end
+      | None => None
+      end
+  | None =>
+  match strip A_DT s with
+  | Some r =>
+      match read_attr r with
+      | Some (dt, r') =>
+          match xml_body qn r' with
+          | Some (v, r'') => if iri_ok dt then Some (OLit (LTyped v dt), r'') else None
+          | None => None
+          end
+      | None => None
+      end
+  | None =>
+      match xml_body qn s with
+      | Some (v, r'') => Some (OLit (LSimple v), r'')
+      | None => None
+      end
+  end end end end.
+
+(* decimal digits of n (rdf:li is renumbered rdf:_1, rdf:_2, ... inside one node element) *)
+Fixpoint digits_f (fuel : nat) (n : N) (acc : str) : str :=
+  match fuel with
+  | O => acc
+  | S f => let acc' := (48 + n mod 10) :: acc in
+           if n / 10 =? 0 then acc' else digits_f f (n / 10) acc'
+  end.
+Definition digits (n : N) : str := digits_f (S (N.to_nat (N.log2 n))) n [].
+Definition RDF_LI : str := Eval vm_compute in s2l "http://www.w3.org/1999/02/22-rdf-syntax-ns#li".
+Definition RDF_UNDERSCORE : str := Eval vm_compute in s2l "http://www.w3.org/1999/02/22-rdf-syntax-ns#_".
+
+Definition L_PROP : str := [112; 114; 111; 112].      (* "prop" *)
+(* a property element: "<" qname, namespace declaration, object.  Result: predicate,
+   object, the rdf:li counter, the remaining text *)
+Definition dec_xml_prop (li : N) (s : str) : option (str * object * N * str) :=
+  match s with
+  | 60 :: r =>
+      let (nm, r1) := span local_char r in
+      match (match r1 with
+             | 58 :: r2 =>                               (* only the prefix the formatter declares *)
+                 if str_eqb nm L_PROP then
+                   match strip A_XMLNS_PROP r2 with
+                   | Some r3 => match read_attr r3 with
+                                | Some (ns, r4) =>
+                                    if str_eqb ns XMLNS_NS || str_eqb ns XML_NS then None
+                                    else Some (ns, nm ++ [58], r4)
+                                | None => None
+                                end
+                   | None => None
+                   end
+                 else None
+             | _ =>
+                 match nm with
+                 | [] => None
+                 | _ => match strip A_XMLNS r1 with
+                        | Some r3 => match read_attr r3 with
+                                     | Some (ns, r4) => Some (ns ++ nm, nm, r4)
+                                     | None => None
+                                     end
+                        | None => None
+                        end
+                 end
+             end) with
+      | Some (p, qn, r4) =>
+          match (if str_eqb p RDF_LI then Some (RDF_UNDERSCORE ++ digits (li + 1), li + 1)
+                 else if reserved_pred p then None else Some (p, li)) with
+          | Some (p', li') =>
+              match dec_xml_object qn r4 with
+              | Some (o, r5) => Some (p', o, li', r5)
+              | None => None
+              end
+          | None => None
+          end
+      | None => None
+      end
+  | _ => None
+  end.
+
+(* "<rdf:Description" + rdf:about / rdf:nodeID + ">" *)
+Definition dec_xml_desc (s : str) : option (subject * str) :=
+  match strip X_DESC s with
+  | Some r =>
+      match strip A_ABOUT r with
+      | Some r1 => match read_attr r1 with
+                   | Some (i, 62 :: r2) => if iri_ok i then Some (SIri i, r2) else None
+                   | _ => None
+                   end
+      | None =>
+          match strip A_NODEID r with
+          | Some r1 => match read_attr r1 with
+                       | Some (b, 62 :: r2) => if ncname b then Some (SBlank b, r2) else None
+                       | _ => None
+                       end
+          | None => None
+          end
+      end
+  | None => None
+  end.
+
+(* inside rdf:RDF; cur = the open rdf:Description's subject, li its rdf:li counter *)
+Fixpoint dec_xml_from (fuel : nat) (cur : option subject) (li : N) (s : str) : option (list rio_triple) :=
+  match fuel with
+  | O => None
+  | S f =>
+      match cur with
+      | None =>
+          match strip X_RDF_END s with
+          | Some r => at_end r
+          | None => match dec_xml_desc s with
+                    | Some (sj, r) => dec_xml_from f (Some sj) 0 r
+                    | None => None
+                    end
+          end
+      | Some sj =>
+          match strip X_DESC_END s with
+          | Some r => dec_xml_from f None 0 r
+          | None =>
+              match dec_xml_prop li s with
+              | Some (p, o, li', r) =>
+                  match dec_xml_from f cur li' r with Some l => Some ((sj, p, o) :: l) | None => None end
+              | None => None
+              end
+          end
+      end
+  end.
+Definition dec_xml (s : str) : option (list rio_triple) :=
+  match strip X_HEAD s with
+  | Some r => dec_xml_from (List.length s) None 0 r
+  | None => None
+  end.
+Definition parse_xml (s : str) : option (list triple) :=
+  match dec_xml s with Some l => map_opt from_rio l | None => None end.
 
 (* ---------- correspondence ---------- *)
 Definition opt_triples_eqb (a b : option (list triple)) : bool :=
@@ -604,6 +815,7 @@ Definition check_case (c : case) : bool :=
   && str_eqb (ser_xml ts) (c_xml c)
   && opt_triples_eqb (parse_nt (c_nt c)) (c_nt_back c)
   && opt_triples_eqb (parse_ttl (c_ttl c)) (c_ttl_back c)
+  && opt_triples_eqb (parse_xml (c_xml c)) (c_xml_back c)
   && (if wf then
         (* the round trip fails exactly on the known classes *)
         Bool.eqb (opt_triples_eqb (c_nt_back c) (Some ts)) (negb (existsb known_label ts))
